@@ -232,35 +232,36 @@ proof fn step_register(g: Local, e: LidEntry, s_new: Lidr) -> (h: Local)
 pub open spec fn entry_step_ok(old: LidEntry, new: LidEntry) -> bool {
     new.seq == old.seq && lid_same_id(old, new) && (lid_same_token(old, new) || lid_token_zeroed(new))
         && new.retire_at == old.retire_at && 0 <= new.status <= 5 && lid_count1(new) <= lid_count1(old)
+        && (new.seq != 0 || new.status >= lst_active())
 }
 
 proof fn lemma_retire_post_is_step(old: LidEntry, seq: int, new: LidEntry)
-    requires lid_retire_entry_post(old, seq, new), 0 <= old.status <= 5,
+    requires lid_retire_entry_post(old, seq, new), 0 <= old.status <= 5, old.seq != 0 || old.status >= lst_active(),
     ensures entry_step_ok(old, new),
 {
 }
 proof fn lemma_transmit_post_is_step(old: LidEntry, written: bool, new: LidEntry)
-    requires lid_transmit_entry_post(old, written, new), 0 <= old.status <= 5, written ==> lid_wants_transmit(old),
+    requires lid_transmit_entry_post(old, written, new), 0 <= old.status <= 5, old.seq != 0 || old.status >= lst_active(), written ==> lid_wants_transmit(old),
     ensures entry_step_ok(old, new), lid_count1(new) == lid_count1(old),
 {
 }
 proof fn lemma_ack_post_is_step(old: LidEntry, acked: bool, new: LidEntry)
-    requires lid_ack_entry_post(old, acked, new), 0 <= old.status <= 5,
+    requires lid_ack_entry_post(old, acked, new), 0 <= old.status <= 5, old.seq != 0 || old.status >= lst_active(),
     ensures entry_step_ok(old, new), lid_count1(new) == lid_count1(old),
 {
 }
 proof fn lemma_loss_post_is_step(old: LidEntry, lost: bool, new: LidEntry)
-    requires lid_loss_entry_post(old, lost, new), 0 <= old.status <= 5,
+    requires lid_loss_entry_post(old, lost, new), 0 <= old.status <= 5, old.seq != 0 || old.status >= lst_active(),
     ensures entry_step_ok(old, new), lid_count1(new) == lid_count1(old),
 {
 }
 proof fn lemma_rotate_post_is_step(old: LidEntry, rotate: bool, new: LidEntry)
-    requires lid_rotate_entry_post(old, rotate, new), 0 <= old.status <= 5,
+    requires lid_rotate_entry_post(old, rotate, new), 0 <= old.status <= 5, old.seq != 0 || old.status >= lst_active(),
     ensures entry_step_ok(old, new),
 {
 }
 proof fn lemma_timeout_post_is_step(old: LidEntry, ready: bool, new: LidEntry)
-    requires lid_timeout_entry_post(old, ready, new), 0 <= old.status <= 5,
+    requires lid_timeout_entry_post(old, ready, new), 0 <= old.status <= 5, old.seq != 0 || old.status >= lst_active(),
     ensures entry_step_ok(old, new),
 {
 }
